@@ -652,7 +652,7 @@ pub fn run(tier: Tier, replay: Option<Value>) -> i32 {
         &[("damaged_archives_run", 200), ("children_completed", 150), ("untouched_entries_compared", 1000), ("touched_entries_judged", 50), ("followup_backups_judged", 50), ("damages_on_a_band_with_two_hunk_subdirectories", 5), ("damaged_archives_run_with_a_held_handle", 50), ("subtree_listings_judged", 500), ("touched_entries_judged_in_subtree_listings", 20)]
     };
     run.finish(
-        "archives with 2-4 bands (complete, interrupted in the middle, interrupted newest) sharing blocks; EVERY file except CONSERVE x {delete (not BANDTAIL), truncate 0, truncate half, seeded garbage} + seeded bit flips in every file + seeded single-bit flips in the uncompressed JSON of every hunk, head and tail that keep it decodable (the damage no checksum catches); plus one archive of 10 040 files with one entry per hunk (hunks in i/00000 and i/00001) with hunks 5, 9999, 10000, 10030 deleted / emptied, hunk 7 replaced by garbage, hunk 10001 halved, the last hunk deleted, and blocks that share their d/xyz subdirectory with others emptied or deleted; every fourth damage, and every deletion or emptying of a block, is also applied while the child process holds an Archive handle it has already used (for a listing, a quick validation and a restore) and keeps using for everything that follows, as a long-running program built on the library would; each damaged archive is given to a child process that lists versions (band info, sizes), lists and restores every band (whole; and listed under up to four of its top-level directories, the first of them also restored on its own), validates fully and quickly, backs up the source again and restores that; the parent requires: normal termination (panic, abort, signal = violation; more than 1000x the fault-free number of storage operations = violation; 120 s wall clock = inconclusive); every version other than one whose own BANDHEAD was damaged still opens; each entry whose hunk, that hunk's BANDHEAD and blocks are untouched is restored exactly; entries whose hunk or block is now missing or undecodable, or whose band's head is still there but no longer parses, are restored exactly or the restore reports an error (the vanished last hunk of an incomplete band excepted: indistinguishable from an earlier interruption); the same two rules for the subtree listings and the subtree restore (an entry missing under the subtree must depend on the damaged file; if that file is gone or undecodable an error the undamaged archive does not produce must be reported); after delete / truncate-to-0 the new backup completes and restores the source exactly. Auxiliary sanitizer pass: garbage / bit-flip / half-truncated cases of two archives (8 in quick, 100 per archive in thorough) are replayed with the child under valgrind memcheck (--error-exitcode=99); a report is judged like a crash.",
+        "archives with 2-4 bands (complete, interrupted in the middle, interrupted newest) sharing blocks; EVERY file except CONSERVE x {delete (not BANDTAIL), truncate 0, truncate half, seeded garbage} + seeded bit flips in every file + seeded single-bit flips in the uncompressed JSON of every hunk, head and tail that keep it decodable (the damage no checksum catches); + for every hunk, head and tail one field of its JSON set to a value at or beyond the edge of its type (times, nanoseconds, modes, address start / len and their overflowing sum, hunk counts); plus one archive of 10 040 files with one entry per hunk (hunks in i/00000 and i/00001) with hunks 5, 9999, 10000, 10030 deleted / emptied, hunk 7 replaced by garbage, hunk 10001 halved, the last hunk deleted, and blocks that share their d/xyz subdirectory with others emptied or deleted; every fourth damage, and every deletion or emptying of a block, is also applied while the child process holds an Archive handle it has already used (for a listing, a quick validation and a restore) and keeps using for everything that follows, as a long-running program built on the library would; each damaged archive is given to a child process that lists versions (band info, sizes), lists and restores every band (whole; and listed under up to four of its top-level directories, the first of them also restored on its own), validates fully and quickly, backs up the source again and restores that; the parent requires: normal termination (panic, abort, signal = violation; more than 1000x the fault-free number of storage operations = violation; 120 s wall clock = inconclusive); every version other than one whose own BANDHEAD was damaged still opens; each entry whose hunk, that hunk's BANDHEAD and blocks are untouched is restored exactly; entries whose hunk or block is now missing or undecodable, or whose band's head is still there but no longer parses, are restored exactly or the restore reports an error (the vanished last hunk of an incomplete band excepted: indistinguishable from an earlier interruption); the same two rules for the subtree listings and the subtree restore (an entry missing under the subtree must depend on the damaged file; if that file is gone or undecodable an error the undamaged archive does not produce must be reported); after delete / truncate-to-0 the new backup completes and restores the source exactly. Auxiliary sanitizer pass: garbage / bit-flip / half-truncated cases of two archives (8 in quick, 100 per archive in thorough) are replayed with the child under valgrind memcheck (--error-exitcode=99); a report is judged like a crash.",
         &["hunks carry no checksum: a hunk that still decodes after damage imposes no content requirement", "the child and the parent are the same binary; the interceptor's operation count is the progress measure"],
         Some(true),
         needs,
